@@ -128,9 +128,18 @@ class Device:
         if kind == 'echo':
             self.schedule(conn, delay, reply, n)
         elif kind == 'garbage':
-            self.schedule(conn, delay, reply, n)
-            junk = b'junk junk\n' if self.mode == 'string' else b'JUNK'
-            self.schedule(conn, delay + step.get('after', 0.3), junk)
+            # every unsolicited message is unique, so that a returned reply maps to one place in the byte stream
+            self.njunk = getattr(self, 'njunk', 0) + 1
+            junk = b'junk %d\n' % self.njunk if self.mode == 'string' else b'J' + self.njunk.to_bytes(2, 'big') + b'K'
+            if step.get('after', 0.3) == 0:
+                self.schedule(conn, delay, reply + junk, n)     # same segment as the reply
+            else:
+                self.schedule(conn, delay, reply, n)
+                self.schedule(conn, delay + step['after'], junk)
+        elif kind == 'fragment':
+            # an incomplete message instead of the reply, then silence
+            self.njunk = getattr(self, 'njunk', 0) + 1
+            self.schedule(conn, delay, b'frag%d' % self.njunk if self.mode == 'string' else b'F' + bytes([self.njunk % 256]))
         elif kind == 'none':
             pass
         elif kind == 'close_before':
@@ -219,11 +228,11 @@ class C16(Check):
         faulty = rng.random() < 0.55
         replies = []
         for _ in range(rng.randrange(1, 7)):
-            kind = rng.choice(['echo', 'echo', 'echo', 'garbage'] + (['none', 'close_before', 'close_mid', 'close_after']
-                                                                     if faulty else []))
+            kind = rng.choice(['echo', 'echo', 'echo', 'garbage', 'garbage']
+                              + (['none', 'fragment', 'close_before', 'close_mid', 'close_after'] if faulty else []))
             step = {'kind': kind, 'delay': rng.choice([0, 0, 0.01, 0.2, 0.9] + ([timeout + 0.6, timeout + 1.7] if faulty else []))}
             if kind == 'garbage':
-                step['after'] = rng.choice([0.05, 0.5, 2.0])
+                step['after'] = rng.choice([0, 0, 0.05, 0.5, 2.0])
             if faulty and rng.random() < 0.15:
                 step['faults'] = [{'delay': rng.choice([0, 0.5]),
                                    'fault': rng.choice([['silent', True], ['refuse', rng.randrange(1, 4)], ['close']])}]
@@ -356,6 +365,8 @@ class C16(Check):
         # the client side endpoints of all connections (send times of commands)
         ctx['client_sent'] = [[(t, d) for (t, _q, d) in a.sent_log] for a, b in world.net.pairs]
         ctx['client_arrivals'] = [[(t, d) for (t, _q, d) in a.recv_log] for a, b in world.net.pairs]
+        ctx['client_sent_seq'] = [[(q, d) for (_t, q, d) in a.sent_log] for a, b in world.net.pairs]
+        ctx['client_read_seq'] = [[(q, d) for (_t, q, d) in a.recv_log] for a, b in world.net.pairs]
         ctx['connect_log'] = list(world.net.connect_log)
         srv.secnode.shutdown_modules()
 
@@ -448,6 +459,39 @@ class C16(Check):
                         piece, buf = buf[:4], buf[4:]
                         if piece[:1] == b'A':
                             arrival.setdefault(int.from_bytes(piece[1:3], 'big'), t)
+        # byte level: per connection the stream as read from the socket, each byte with the event number of
+        # the recv() which returned it, and the event number of the send of each command
+        streams = []
+        for lst in ctx['client_read_seq']:
+            streams.append((b''.join(d for _q, d in lst), [q for q, d in lst for _ in d]))
+        sent_seq = {}
+        for conn_idx, lst in enumerate(ctx['client_sent_seq']):
+            for q, data in lst:
+                for piece in (data.split(b'\n') if mode == 'string' else [data[i:i + 4] for i in range(0, len(data), 4)]):
+                    u = cmd_uid(piece) if piece else None
+                    if u is not None:
+                        sent_seq.setdefault(u, (conn_idx, q))
+
+        def read_before_send(u, rep):
+            """True when every place of the byte stream that <rep> may come from was read before <u> was sent"""
+            if u not in sent_seq:
+                return None
+            conn_idx, q = sent_seq[u]
+            try:
+                raw = rep.encode('latin-1') + b'\n' if mode == 'string' else bytes(rep)
+            except Exception:   # noqa
+                return None
+            if len(raw) < 3:
+                return None
+            data, seqs = streams[conn_idx]
+            firsts = []
+            pos = data.find(raw)
+            while pos >= 0:
+                firsts.append(seqs[pos])
+                pos = data.find(raw, pos + 1)
+            if not firsts:
+                return None
+            return all(f < q for f in firsts) and (min(firsts), q)
         for c in calls:
             if 'result' not in c:
                 continue
@@ -467,6 +511,12 @@ class C16(Check):
                 for u, rep in zip(exp, replies):
                     tok = token(rep)
                     if tok == u:
+                        continue
+                    stale = read_before_send(u, rep)
+                    if stale:
+                        res.append(Violation('C16.stale-returned', 'bytes-read-before-send',
+                                             f'{c["task"]} command uid {u} (sent at event {stale[1]}) got {rep!r}, which had been '
+                                             f'read from the socket at event {stale[0]}, before the command was sent'))
                         continue
                     if isinstance(tok, tuple):
                         # garbage returned as a reply: stale only if it had arrived before the command was sent
